@@ -4,7 +4,9 @@
 (* ComputeChecksums, VerifyChecksum of every checksummed layer and            *)
 (* Packet.VerifyChecksums) against Checksum.tla.  Every event is judged on    *)
 (* its own (the state only remembers the packet of the last "ser" event, from *)
-(* which the verified packets must derive by at most one bit), so a rejection *)
+(* which the verified packets must derive by at most one bit; "ser" events    *)
+(* with a variant field come from re-used, decoded or pre-filled layer        *)
+(* structs and are judged exactly like the others), so a rejection            *)
 (* does not hide later events; one example per distinct (reason, proto, ip    *)
 (* version) is kept, the list is capped.                                      *)
 EXTENDS Checksum, Json, TLC
@@ -12,7 +14,8 @@ VARIABLES l, st, bad, nbad, cnt
 tvars == <<l, st, bad, nbad, cnt>>
 Trace == ndJsonDeserialize("trace.ndjson")
 Has(e, f) == f \in DOMAIN e
-Note(b, r) == IF \E i \in 1..Len(b) : b[i].reason = r.reason /\ b[i].proto = r.proto /\ b[i].v = r.v THEN b
+Note(b, r) == IF \E i \in 1..Len(b) : b[i].reason = r.reason /\ b[i].proto = r.proto /\ b[i].v = r.v
+                                           /\ b[i].variant = r.variant THEN b
               ELSE IF Len(b) < 60 THEN Append(b, r) ELSE b
 Ops == {"fold", "sum", "ser", "verify", "pverify"}
 TInit == l = 1 /\ st = NewState /\ bad = <<>> /\ nbad = 0 /\ cnt = [o \in Ops |-> 0]
@@ -28,6 +31,7 @@ Step ==
                 /\ bad' = Note(bad, [line |-> l, op |-> e.op, reason |-> r[1],
                                      proto |-> IF Has(e, "proto") THEN e.proto ELSE "",
                                      v |-> IF Has(e, "v") THEN e.v ELSE 0,
+                                     variant |-> IF Has(e, "variant") THEN e.variant ELSE "",
                                      expected |-> IF e.op \in {"ser", "verify"} /\ r[1] # "harness-malformed"
                                                   THEN Expected(e.proto, e.v, e.bytes, e.off) ELSE -1])
 TSpec == TInit /\ [][Step]_tvars
